@@ -3,6 +3,8 @@
 Spec: specs/pq/PQ.tla, PQMC (graph), PQTrace.
 """
 import json
+from decimal import Decimal
+from fractions import Fraction
 import random
 import time
 
@@ -20,6 +22,10 @@ CONCS = {
     "str-tasks/int-prios": (lambda t: "t%d" % t, lambda p: None if p == 99 else p),
     "tuple-tasks/float-prios": (lambda t: (t, "task"), lambda p: None if p == 99 else float(p)),
     "int-tasks/int-prios": (lambda t: 7000 + t, lambda p: None if p == 99 else p),
+    # falsy and None tasks; priorities of every numeric type in one queue (equal numbers of different types tie)
+    "falsy-tasks/mixed-prios": (lambda t: (None, 0, "", (), frozenset(), 0.5)[t] if t < 6 else ("t", t),
+                                lambda p: None if p == 99 else (True if p == 1 else False if p == 0 else
+                                                                [p, float(p), Fraction(p), Decimal(p)][p % 4])),
 }
 VARIANTS = [("HeapPriorityQueue", None), ("SortedPriorityQueue", None), ("SortedPriorityQueue", 1), ("SortedPriorityQueue", 3)]
 
@@ -45,9 +51,12 @@ class Driver(GenericAdapter):
         for i in range(1, 200):
             self._tab[self.T(i)] = i
         self.kinds = variants
+        # the value handed to pop / peek as default: falsy ones where no task can be mistaken for it
+        self.default = "DEFAULT" if conc.startswith("falsy") else {"str": None, "tup": 0, "int": ""}[conc[:3]]
+        self.calls = 0
 
     def dec(self, x):
-        if x == "DEFAULT":
+        if x is self.default or (self.default == "DEFAULT" and x == "DEFAULT"):
             return 77
         try:
             return self._tab.get(x, -999)
@@ -61,17 +70,21 @@ class Driver(GenericAdapter):
         n = op["op"]
         try:
             v = []
+            self.calls += 1
+            kwform = self.calls % 3 == 0          # every third call spells its arguments as keywords
             if n == "add":
                 if op["p"] == 99 and op.get("omit"):
-                    q.add(self.T(op["t"]))
+                    q.add(task=self.T(op["t"])) if kwform else q.add(self.T(op["t"]))
+                elif kwform:
+                    q.add(task=self.T(op["t"]), priority=self.P(op["p"]))
                 else:
                     q.add(self.T(op["t"]), self.P(op["p"]))
             elif n == "remove":
                 q.remove(self.T(op["t"]))
             elif n == "pop":
-                v = [self.dec(q.pop() if op["d"] == -1 else q.pop("DEFAULT"))]
+                v = [self.dec(q.pop() if op["d"] == -1 else q.pop(default=self.default) if kwform else q.pop(self.default))]
             elif n == "peek":
-                v = [self.dec(q.peek() if op["d"] == -1 else q.peek("DEFAULT"))]
+                v = [self.dec(q.peek() if op["d"] == -1 else q.peek(default=self.default) if kwform else q.peek(self.default))]
             elif n == "len":
                 v = [len(q)]
             else:
@@ -104,7 +117,7 @@ class Driver(GenericAdapter):
         else:
             out.append(-1)       # did not become empty
         try:
-            if q.pop("DEFAULT") != "DEFAULT" or q.peek("DEFAULT") != "DEFAULT" or len(q) != 0:
+            if q.pop("DEFAULT") != "DEFAULT" or q.peek("DEFAULT") != "DEFAULT" or q.pop(None) is not None or q.peek(0) != 0 or len(q) != 0:
                 out.append(-2)
         except Exception:
             out.append(-3)
@@ -119,6 +132,52 @@ class Driver(GenericAdapter):
             if d:
                 return "%s@%s%s" % (d, k, "" if f is None else "/factor%s" % f)
         return None
+
+
+def record_bulk(seed, n_add, kinds):
+    """Queues of tens of thousands of entries with the shipped BarrelList sizing (it first splits at ~21.9k entries):
+    batches of adds, removes, re-adds and pops, one event per batch; the drain at the end pops everything."""
+    rng = random.Random(seed)
+    traces = []
+    for kind in kinds:
+        q = make(kind, None)
+        T = lambda i: 7000 + i
+        evs = []
+        prios = rng.choice([[0, 1, 2, 3, 99], [-5, 0, 5, 99], list(range(-20, 20)), [0]])
+        order = rng.choice(["random", "ascending", "descending"])
+
+        def batch_add(ids):
+            items = []
+            for j, i in enumerate(ids):
+                p_ = rng.choice(prios) if order == "random" else (j % 1000 if order == "ascending" else -(j % 1000))
+                q.add(T(i), None if p_ == 99 else p_)
+                items.append([i, p_])
+            evs.append({"op": {"op": "bulk_add", "t": 0, "p": 0, "d": 0}, "items": items, "tasks": [], "popped": [], "len": len(q), "r": {"e": "ok", "v": []}, "drain": []})
+
+        def batch_remove(ids):
+            for i in ids:
+                q.remove(T(i))
+            evs.append({"op": {"op": "bulk_remove", "t": 0, "p": 0, "d": 0}, "items": [], "tasks": list(ids), "popped": [], "len": len(q), "r": {"e": "ok", "v": []}, "drain": []})
+
+        def batch_pop(n_):
+            out = []
+            try:
+                for _ in range(n_):
+                    out.append(q.pop() - 7000)
+            except Exception as ex:
+                out.append(-7)
+            evs.append({"op": {"op": "pop_n", "t": 0, "p": 0, "d": 0}, "items": [], "tasks": [], "popped": out, "len": len(q), "r": {"e": "ok", "v": []}, "drain": []})
+        ids = list(range(1, n_add + 1))
+        batch_add(ids)
+        batch_remove(rng.sample(ids, n_add // 10))
+        batch_add(rng.sample(ids, n_add // 10))               # re-adds of live tasks and of removed ones
+        batch_pop(n_add // 3)
+        batch_add(list(range(n_add + 1, n_add + n_add // 5)))
+        batch_pop(len(q))
+        batch_add([1, 2, 3])                                   # the emptied queue is used again
+        batch_pop(3)
+        traces.append({"kind": kind, "factor": -1, "conc": "bulk", "ev": evs})
+    return traces
 
 
 def record(n, length, seed, ntasks=40):
@@ -161,12 +220,16 @@ def main(tier, seed):
     stats.add_tlc(r)
     g = Graph(r)
     stats.extra["graph_states"], stats.extra["graph_edges"] = len(g.states), g.n_edges
-    for cn in (list(CONCS) if thorough else list(CONCS)[:2]):
+    for cn in (list(CONCS) if thorough else [list(CONCS)[0], list(CONCS)[3]]):
         core.replay_graph_generic(g, Driver(cn), verdict, stats)
     canary(stats)
     traces = record(400 if thorough else 80, 3000 if thorough else 400, seed)
     core.validate_traces_generic(SPECDIR, "PQTrace.tla", "PQTrace.cfg", traces, stats, verdict, Driver.subject,
                                  sig_extra=lambda tr, ev: {"cls": tr["kind"], "factor": tr["factor"]})
+    bulk = record_bulk(seed, 30000 if thorough else 24000, ["HeapPriorityQueue", "SortedPriorityQueue"])
+    stats.extra["bulk_queue_entries"] = 30000 if thorough else 24000
+    core.validate_traces_generic(SPECDIR, "PQTrace.tla", "PQTrace.cfg", bulk, stats, verdict, Driver.subject, shards=2,
+                                 sig_extra=lambda tr, ev: {"cls": tr["kind"], "factor": "shipped", "bulk": True})
     stats.sample({"trace_kind": traces[0]["kind"], "first_events": traces[0]["ev"][:4]})
     rc = verdict.finish()
     core.write_evidence(PROP, tier, seed, stats.coverage(
